@@ -79,6 +79,14 @@ Proof. intros evs n A. exact (slots_inv_guarded evs (init n) eq_refl (init_inv n
 Theorem C05_A1_event_loop : forall evs, lbad (lrun linit evs) = false.
 Proof. exact loop_a1. Qed.
 
+(* Liveness needs the cycles to happen: every state change of a transfer (in particular every one that gives
+   a slot back: COMPLETE, FAILED, ABORTED, PAUSED, back to QUEUED) requests a management cycle (read off
+   on_transfer_state_changed); with C05_work_conserving and C05_progress_partial this is the code-side part of
+   "a queued upload of an eligible user is started while slots are free".  Not covered: changes of the limit
+   itself request no cycle (known finding F31). *)
+Theorem C05_state_change_requests_cycle : EVERY_STATE_CHANGE_REQUESTS_CYCLE = true.
+Proof. reflexivity. Qed.
+
 (* Without A1 the invariant is false of the model (two cycles before the first task ran). *)
 Theorem C05_slots_inv_without_A1_refuted : exists evs,
   let s' := run (init 1) evs in
